@@ -69,7 +69,7 @@ TESTED_NOT_PROVED = [
     "explicit_hydrogen=True GML exports; core=False (full) exports on ITS graphs outside its_ok; h_to_explicit with a node subset / its=True "
     "beyond the total count: correspondence + oracle only",
 ]
-LEVEL_TEXT = ("Machine-checked proof (Coq, 14 theorems, closed under the global context) over an executable model of the GML writer/reader at "
+LEVEL_TEXT = ("Machine-checked proof (Coq, 15 theorems, closed under the global context) over an executable model of the GML writer/reader at "
               "record level, of its_to_gml / gml_to_its / smart_to_gml / get_rc / its_decompose / ITSGraph at graph level, of h_to_explicit / "
               "h_to_implicit, and of the attribute copying of MolToGraph / GraphToMol: label round trip for every element symbol and every "
               "charge; ITS -> GML -> ITS restores atoms, both-side charges and (before, after) orders for every reaction-centre-shaped ITS, "
@@ -413,6 +413,34 @@ def _py_its_ok(I):
     return True
 
 
+def _py_mol_ok(g):
+    """independent definition of the model's mol_ok on a JSON graph (domain of C10_smart_roundtrip)"""
+    ids = [n for n, _ in g["nodes"]]
+    if len(set(ids)) != len(ids):
+        return False
+    for _, a in g["nodes"]:
+        if not isinstance(a.get("element"), str) or not re.fullmatch(r"[A-Za-z*]+", a["element"]) or a.get("charge") is None:
+            return False
+    seen = set()
+    for u, v, a in g["edges"]:
+        k = frozenset((u, v))
+        if u == v or k in seen or u not in ids or v not in ids or isinstance(a.get("order"), (list, tuple)) or a.get("order") not in (1, 1.5, 2, 3):
+            return False
+        seen.add(k)
+    return True
+
+
+def _py_balanced(g, h):
+    eg = {n: a.get("element", "*") for n, a in g["nodes"]}
+    eh = {n: a.get("element", "*") for n, a in h["nodes"]}
+    return set(eg) == set(eh) and all(eg[n] == eh[n] for n in eg)
+
+
+def _py_eo_covers(g, h, eo):
+    pg = {frozenset((u, v)) for u, v, _ in g["edges"]} | {frozenset((u, v)) for u, v, _ in h["edges"]}
+    return {frozenset((u, v)) for u, v in eo} == pg
+
+
 def _hx_obs(G, nodes, its):
     from synkit.Graph.Hyrogen._misc import h_to_explicit, h_to_implicit
     e = h_to_explicit(G, nodes, its)
@@ -472,9 +500,10 @@ def impl(case):
             return ["NOGRAPH"]
         its = ITSConstruction().ITSGraph(to_nx(x[0]), to_nx(x[1]))
         out = []
+        dom = [_py_mol_ok(x[0]), _py_mol_ok(x[1]), _py_balanced(x[0], x[1]), _py_eo_covers(x[0], x[1], x[2])]
         for core, reindex, eh in case["cfgs"]:
             text = smart_to_gml(case["rsmi"], core=core, reindex=reindex, explicit_hydrogen=eh)
-            out.append([gr_obs(its), rec_obs(text_to_rec(text)), parsed_obs(text)])
+            out.append([[gr_obs(its), rec_obs(text_to_rec(text)), parsed_obs(text)]] + dom)
         return out
     raise AssertionError(k)
 
@@ -517,7 +546,7 @@ def coq_case(case):
             eo = clist(["(%s, %s)" % (cN(u), cN(v)) for u, v in x[2]])
             return "(let r := %s in let p := %s in let eo := %s in %s)" % (
                 enc_gr(x[0]), enc_gr(x[1]), eo,
-                clistL(["run_smart r p eo %s %s %s" % (cbool(a), cbool(b), cbool(c)) for a, b, c in case["cfgs"]]))
+                clistL(["run_smart2 r p eo %s %s %s" % (cbool(a), cbool(b), cbool(c)) for a, b, c in case["cfgs"]]))
     except Outside:
         return None
     raise AssertionError(k)
@@ -831,7 +860,7 @@ def oracle(case):
 
 def _rec_of(k, o):
     """the GML record inside one per-configuration observable"""
-    return o[0][0][-2] if k == "its" else o[-2]
+    return o[0][0][-2] if k == "its" else o[0][-2]
 
 
 def nontrivial(case, obs):
@@ -898,6 +927,9 @@ def distribution(cases, obss):
             try:
                 for oo in o:
                     rec = _rec_of(k, oo)
+                    if k == "smart":
+                        key = "smart_roundtrip_domain:" + str(bool(oo[1] and oo[2] and oo[3] and oo[4]))
+                        d["cfg_counts"][key] = d["cfg_counts"].get(key, 0) + 1
                     if k == "its":
                         d["its_ok_exports"][str(bool(oo[0][1]))] = d["its_ok_exports"].get(str(bool(oo[0][1])), 0) + 1
                     if len(rec) == 3:
